@@ -8,11 +8,12 @@ ALLOW = 'bufio,io,encoding/binary,errors,bytes'
 INITS = 'io,bufio,errors'
 OPTIONS = {}
 SLICE_S = 3
+MAX_PATHS_PER_TASK = 60000
 ANCHOR_FILES = ['/repo/pkg/frame/reader.go', '/repo/pkg/frame/v1_frame.go', '/repo/pkg/frame/v2_frame.go']
 
 
 def params(tier):
-    return (6, 1) if tier == 'quick' else (9, 2)
+    return (6, 1) if tier == 'quick' else (8, 2)
 
 
 def tasks(tier):
@@ -21,6 +22,8 @@ def tasks(tier):
     for L in range(0, lmax + 1):
         for mode in range(0, maxmode + 1):
             if mode > 0 and L < 2:
+                continue
+            if tier != 'quick' and ((L >= 8 and mode >= 1) or (L >= 7 and mode >= 2)):
                 continue
             for inj in (0, 1):
                 if inj == 1 and mode > 1:
@@ -51,7 +54,7 @@ def required_reach(tier):
 def bounds(tier):
     lmax, maxmode = params(tier)
     return {'stream_length': 'every length 0..%d, every byte symbolic' % lmax,
-            'segmentations': 'reference reader: one chunk; second reader: all 1-byte chunks, and every placement of up to %d cut points' % maxmode,
+            'segmentations': 'reference reader: one chunk; second reader: all 1-byte chunks, and every placement of up to %d cut points' % maxmode + ('' if tier == 'quick' else ' (length 8: 1-byte chunks only; length 7: at most one cut)'),
             'structured_streams': 'two frames (v1 / v2 / signed v2, payload 0..3, all contents symbolic) with 0..2 non-marker noise bytes before, between and after; second reader fed 1-byte chunks or with ' + ('one' if tier == 'quick' else 'one or two') + ' arbitrary cut point(s); ' + ('6 layouts' if tier == 'quick' else 'all kind pairs x 4 length pairs x 6 noise layouts'),
             'transport_end': 'io.EOF, and a non-EOF error after the last byte (= an error injected at every offset, since every length is explored)',
             'dialect_and_key': 'none (gates are C02/C06)'}
